@@ -18,6 +18,8 @@ VERIF = os.path.dirname(os.path.dirname(os.path.abspath(__file__)))
 def run_one(d):
     sid = os.path.basename(d)
     meta = json.load(open(f'{d}/meta.json'))
+    if meta.get('status') == 'neutralised':
+        return sid, sid.split('-')[0], 'NEUTRALISED', []
     check = (meta.get('caught_by') or sid).split(':')[0].strip() or sid.split('-')[0]
     if not check.startswith('C') or len(check) != 3:
         check = sid.split('-')[0]
@@ -52,7 +54,7 @@ def main():
             print(f'{sid:8s} {check} {status:14s} {",".join(keys)[:200]}', flush=True)
     os.makedirs(f'{VERIF}/scratch', exist_ok=True)
     json.dump(results, open(f'{VERIF}/scratch/seedregress.json', 'w'), indent=1)
-    bad = [s for s, r in results.items() if r['status'] != 'CAUGHT']
+    bad = [s for s, r in results.items() if r['status'] not in ('CAUGHT', 'NEUTRALISED')]
     print(f'{len(results) - len(bad)}/{len(results)} caught; not caught: {bad}')
     return 1 if bad else 0
 
